@@ -254,7 +254,7 @@ func scopeOracle(p gengotypes.Package) string {
 		for _, q := range []struct {
 			ptr  bool
 			want []string
-		}{{true, all}, {false, val}} {
+		}{{true, all}, {false, val}, {true, all}, {false, val}, {false, val}, {true, all}} { // asked repeatedly: the answer must not wear out
 			var got []string
 			for _, m := range p.MethodsOf(named, q.ptr) {
 				got = append(got, m.Name())
@@ -528,6 +528,10 @@ func (c *methodsCase) eval(p gengotypes.Package) {
 			return "loaderr"
 		}
 		named := p.Pkg().Scope().Lookup("T").Type().(*types.Named)
+		// earlier questions must not change later answers
+		p.MethodsOf(named, false)
+		p.MethodsOf(named, true)
+		p.MethodsOf(named, false)
 		var names []string
 		for _, m := range p.MethodsOf(named, c.Query) {
 			names = append(names, m.Name())
